@@ -756,4 +756,64 @@ $h9 = function ($r, $w) use ($c11cat, $c11boot, $c11list, $c11grid) {
 $bs->get('/s9/{id}', $h9);
 $bs->post('/s9/{id}', $h9);
 verif_server('boot', $bs);
+
+// shape 10: recursion depth is a request parameter; the innermost frame is the rendezvous /
+// gate point, so requests can be parked deep inside their recursion
+function c11_down($tok, $d, $name) {
+    if ($d <= 0) { verif_sync($tok); verif_gate($name); return 'B' . $tok; }
+    $below = c11_down($tok, $d - 1, $name);
+    return $below . '.';
+}
+function c11_even($tok, $d, $name) {
+    if ($d <= 0) { verif_sync($tok); verif_gate($name); return 'E' . $tok; }
+    return c11_odd($tok, $d - 1, $name) . 'e';
+}
+function c11_odd($tok, $d, $name) {
+    if ($d <= 0) { verif_sync($tok); verif_gate($name); return 'O' . $tok; }
+    return c11_even($tok, $d - 1, $name) . 'o';
+}
+class C11Rec {
+    public $tok;
+    public $name;
+    public function __construct($tok, $name) { $this->tok = $tok; $this->name = $name; }
+    public function down($d) {
+        if ($d <= 0) { verif_sync($this->tok); verif_gate($this->name); return 'M' . $this->tok; }
+        $below = $this->down($d - 1);
+        return $below . ':';
+    }
+    public static function sdown($tok, $d, $name) {
+        if ($d <= 0) { verif_sync($tok); verif_gate($name); return 'S' . $tok; }
+        return C11Rec::sdown($tok, $d - 1, $name) . ';';
+    }
+}
+$rs = new Server('127.0.0.1', 0);
+$rs->onError(function ($request, $response, $error) {
+    $response->status(500);
+    $response->write('error=' . $error);
+});
+$h10 = function ($r, $w) {
+    $tok = $r->header('X-Tok');
+    $kind = $r->header('X-Rec');
+    $name = $r->header('X-Gate-Name');
+    $d = (int)$r->input('d');
+    $res = '?';
+    if ($kind == 'fn') { $res = c11_down($tok, $d, $name); }
+    elseif ($kind == 'mutual') { $res = c11_even($tok, $d, $name); }
+    elseif ($kind == 'method') { $o = new C11Rec($tok, $name); $res = $o->down($d); }
+    elseif ($kind == 'static') { $res = C11Rec::sdown($tok, $d, $name); }
+    elseif ($kind == 'closure') {
+        $f = null;
+        $f = function ($k) use (&$f, $tok, $name) {
+            if ($k <= 0) { verif_sync($tok); verif_gate($name); return 'C' . $tok; }
+            return $f($k - 1) . ',';
+        };
+        $res = $f($d);
+    }
+    else { verif_note('unknown recursion kind ' . $kind); }
+    $w->header('X-Depth', $tok . '/' . (strlen($res) - strlen($tok) - 1));
+    $w->write('rec=' . $res . "\nlen=" . strlen($res) . "\nua=" . $r->userAgent());
+};
+$rs->get('/s10/{id}', $h10);
+$rs->post('/s10/{id}', $h10);
+verif_server('rec', $rs);
 `
